@@ -183,6 +183,10 @@ func RobustSign(a, b, c Point) Direction {
 	return sign
 }
 
+// minStableSignNorm2Product is the smallest value of |e1|^2 * |e2|^2 for which
+// stableSign trusts its error bound (well above the underflow threshold).
+const minStableSignNorm2Product = 0x1p-1000
+
 // stableSign reports the direction sign of the points in a numerically stable way.
 // Unlike triageSign, this method can usually compute the correct determinant sign
 // even when all three points are as collinear as possible. For example if three
@@ -222,7 +226,15 @@ func stableSign(a, b, c Point) Direction {
 	}
 
 	det := -e1.Cross(e2).Dot(op)
-	maxErr := detErrorMultiplier * math.Sqrt(e1.Norm2()*e2.Norm2())
+	norm2Product := e1.Norm2() * e2.Norm2()
+	// The error bound below is only valid if this product did not underflow
+	// (which happens for points closer than about 1e-77): otherwise the bound
+	// rounds to zero and rounding noise in det would be reported as a definite
+	// sign. Such cases are left to the exact predicate.
+	if norm2Product < minStableSignNorm2Product {
+		return Indeterminate
+	}
+	maxErr := detErrorMultiplier * math.Sqrt(norm2Product)
 
 	// If the determinant isn't zero, within maxErr, we know definitively the point ordering.
 	if det > maxErr {
